@@ -23,16 +23,21 @@ What is proved is `compile_correct_partial` (= `compile_correct_F2`, the highest
   (`Call`, `TailCall`, `Return` on `Bytecode.run`);
 * of F3 the semantic half: recursive groups are related at every fuel (`rec_group_correct_F3`).
 
-Still missing, precisely: (i) the *code* of `Named::Recursive` (`NewClosure … CloseClosure`,
-also for a non-recursive `let f x = …`): these instructions change the heap, whereas `Exec`
-keeps one heap — the statement must become Kripke-style (start heap, end heap, `Agree`/`CloRel`
-monotone under heap extension, `stepInstr` monotone in the heap), which touches every case of
-the induction; (ii) closures as *values* (returned, passed, stored in data; partial application
-and excess arguments of F4 produce `pap`/closure results): results are then related, not equal,
-values, so `Agree`/`Done` need a value relation instead of equality and "which variables hold
-closures" stops being syntactic (`Φ`) and needs types; (iii) float/string literal patterns,
-`GetField` record patterns on open rows, extern calls (`error`). Beyond the proved rung the claim
-rests on the exact-bytecode and run correspondences above.
+* of F3 also the creation code, partially (`compile_correct_F3_partial`): chains of single lambda
+  bindings `let f ps = body in …` (`NewClosure; Push; loads; CloseClosure`; self-recursion and
+  captured variables allowed, bodies in F2) and plain `let`s in front of an F2 expression, run in
+  phases over a growing heap (`ExecH`, `HExt`), with the Kripke lemmas `heap_extension_monotone`.
+
+Still missing, precisely: (i) lambda bindings under `match` (every generated program's top level
+sits under the two prelude record matches, so F3-partial adds no measured function body), the
+creation code of multi-member `Named::Recursive` groups, lambdas inside function bodies (the
+heap would change during a call: `Returns` keeps one heap); (ii) closures as *values* (returned,
+passed, stored in data; partial application and excess arguments of F4 produce `pap`/closure
+results): results are then related, not equal, values, so `Agree`/`Done` need a value relation
+instead of equality and "which variables hold closures" stops being syntactic (`Φ`) and needs
+types; (iii) float/string literal patterns, `GetField` record patterns on open rows, extern calls
+(`error`). Beyond the proved rung the claim rests on the exact-bytecode and run correspondences
+above.
 -/
 import GluonModel.Core
 import GluonModel.Bytecode
